@@ -103,3 +103,25 @@ Theorem C13_refuted_duplicate_in_flight_never_recorded :
 Proof. exact file_duplicate_in_flight_never_recorded. Qed.
 Print Assumptions C13_refuted_duplicate_in_flight_never_recorded.
 End RefutedC13.
+
+(* ---- progress of the file-based executor (Proofs/FileLive.v): in every kill-free run of a program
+   without cancellation that submits each call once (no two identical calls: finding D11), over any
+   directory whose result files are complete, whenever every started process has exited and the
+   loop thread is between two iterations, every registered future is done or has its complete result
+   file waiting for the next scan, and every call taken from the queue is done or registered: no
+   call is lost, whatever was already in the directory. ---- *)
+From EL Require Model.ExecInv Model.FileLiveSpec Proofs.FileLive.
+Theorem C13_no_call_lost_at_rest :
+  forall c n prog fs0 s,
+    FileSpec.nocancel prog = true -> ExecInv.wf_prog n prog -> FileLiveSpec.no_late_submit prog = true ->
+    (forall i j, FileExec.fcanon c i = FileExec.fcanon c j -> i = j) ->
+    FileSafe.fs_wf fs0 -> FileLiveSpec.fs_outs_complete fs0 = true ->
+    FileLive.freach_nk c (FileExec.finit n prog fs0) s ->
+    FileLiveSpec.rest_ok prog s = true.
+Proof. exact FileLive.file_progress_at_rest. Qed.
+Print Assumptions C13_no_call_lost_at_rest.
+
+(* with two identical calls in flight the second is never recorded (finding D11): rest_B fails *)
+Theorem C13_refuted_identical_calls_lose_one : ltac:(let t := type of FileLive.progress_needs_distinct_calls in exact t).
+Proof. exact FileLive.progress_needs_distinct_calls. Qed.
+Print Assumptions C13_refuted_identical_calls_lose_one.
